@@ -75,6 +75,7 @@ def parseConv : String → Option Conv
   | "to_tensor" => some .toTensor | "as_cow" => some .asCow | "clone" => some .clone
   | "to_contiguous" => some .toContiguous | "reshaped" => some .reshapedSame
   | "into_shape" => some .intoShapeSame | "into_contiguous" => some .intoContiguous
+  | "into_dyn" => some .intoDyn | "into_permuted" => some .intoPermutedRev
   | _ => none
 
 def runConvs : List String → T → String
